@@ -54,7 +54,7 @@ PROPS["C07"] = dict(
     level="exploration",
     level_text=("Generated pairs and triples of operands of equal dimensionality 0..4, equal or perturbed extents, few element mutations over {0,1,2}, each operand independently "
                 "realised as array / array_ref / view / transposed, rotated, padded or strided storage / array<long> / const-pointer view; every relational operator is compared "
-                "with a nested-vector model and the order laws are checked on triples. Bounded exploration; cannot prove absence."),
+                "with a nested-vector model and the order laws are checked on triples; for D >= 2 also two views of one array with the same origin, extents and leading stride but differently strided rows. Bounded exploration; cannot prove absence."),
     technique="differential testing against a nested-vector reference model + algebraic order laws on generated operand triples (rapidcheck)",
     rule=("case = D in 0..4, extents of A from {0..4}, B and C = A's extents with probability 1/2 else one extent +-1, elements = a position pattern over {0,1,2} plus up to 6 "
           "point mutations, realisation kind per operand from 9 kinds; oracle = model: == iff same extents and equal elements, != its negation, <,<=,>,>= recursive lexicographic "
@@ -316,7 +316,7 @@ PROPS["C15"] = dict(
     thorough=dict(cases=50000, floor=400000, fuzz=dict(time=240)),
     level="exploration",
     level_text=("Differential testing against a direct (separable, O(N n_d)) evaluation of the unnormalised DFT: D in 1..4, extents from {1..6, 8, 16, 25, 30, 36, 48} (at most 1500 elements), all 2^D masks of transformed dimensions, both signs, input and "
-                "output independently realised as contiguous view, transposed storage, rotated storage, padded sub-block, strided view, view with a non-unit stride in the last dimension, reversed dimension order or a padded block of transposed storage; out-of-place through dft / dft_forward / dft_backward and "
+                "output independently realised as contiguous view, transposed storage, rotated storage, padded sub-block, strided view, view with a non-unit stride in the last dimension, reversed dimension order or a padded block of transposed storage; out-of-place through dft / dft_forward / dft_backward (input passed as a const view or as the named mutable view, mask as a named std::array) and "
                 "the in-place overload. The result matches within 1e-10 N max|x|; a distinct input's whole parent storage is bit-identical afterwards; every parent cell outside the output view is "
                 "unchanged; transforming back multiplies every element by the number of transformed points; every case then runs the other placement (in place <-> out of place) of the same geometry right away, which must be equally correct; half of the out-of-place cases also build a fftw::plan object and execute it twice, on the planned arrays and on a second pair of arrays of the same layouts."),
     technique="differential testing against a direct DFT on generated layouts and dimension masks, whole-parent guard comparison (rapidcheck + libFuzzer)",
